@@ -218,10 +218,11 @@ theorem walk_evspec {f : Nat} {t : Tracker} {src : Nat} {blk : Nat × Nat} {ev :
 /-- `m` is the state an operation reaches before its final `prune()`, `ev` its event -/
 structure MidEv (t m : Tracker) (ev : Event) : Prop where
   first : m.first = t.first
+  hi : m.highest = t.highest ∨ ∃ b, b ∈ evF ev ∧ m.highest = max b.1 t.highest
   low : ∀ s, s < t.first → m.status s = t.status s
   spec : EvSpec t.status m.status (evF ev) ev.implSkipped
 
-theorem MidEv.same (t : Tracker) : MidEv t t {} := ⟨rfl, fun _ _ => rfl, EvSpec.refl _⟩
+theorem MidEv.same (t : Tracker) : MidEv t t {} := ⟨rfl, Or.inl rfl, fun _ _ => rfl, EvSpec.refl _⟩
 
 theorem evspec_set_same {st : Nat → Option Status} {s : Nat} {v : Status}
     (h1 : Dec (st s) → v.decided = true ∧ finalHash (some v) = finalHash (st s))
@@ -244,7 +245,7 @@ theorem evspec_set_same {st : Nat → Option Status} {s : Nat} {v : Status}
 theorem midEv_set_same {t : Tracker} {s : Nat} {v : Status} (hs : t.first ≤ s)
     (h1 : Dec (t.status s) → v.decided = true ∧ finalHash (some v) = finalHash (t.status s))
     (h2 : v.decided = true → Dec (t.status s)) : MidEv t { t with status := setSt t.status s v } {} := by
-  refine ⟨rfl, ?_, evspec_set_same h1 h2⟩
+  refine ⟨rfl, Or.inl rfl, ?_, evspec_set_same h1 h2⟩
   intro x hx
   show setSt t.status s v x = _
   have : x ≠ s := by omega
@@ -268,21 +269,22 @@ theorem hfb_mid {t : Tracker} {blk : Nat × Nat} {t' : Tracker} {ev : Event}
       have w := walk_spec hw2
       obtain ⟨F, S, e1, e2, sp2⟩ := walk_evspec hw2
       have e3 := walk_finalized hw2
-      refine ⟨t2, ⟨w.first, ?_, ?_⟩, rfl⟩
+      have hF : evF ev = [(blk.1, blk.2)] ++ F := by
+        unfold evF; rw [e3, e1]; rfl
+      refine ⟨t2, ⟨w.first, Or.inr ⟨blk, by rw [hF]; simp, w.highest⟩, ?_, ?_⟩, rfl⟩
       · intro x hx
         rcases w.evolves x with e | ⟨l, _, _, _⟩
         · rw [e]; exact low1 x hx
         · have l' : t.first ≤ x := l
           omega
-      · have hF : evF ev = [(blk.1, blk.2)] ++ F := by
-          unfold evF; rw [e3, e1]; rfl
-        have hS : ev.implSkipped = [] ++ S := by rw [e2]
+      · have hS : ev.implSkipped = [] ++ S := by rw [e2]
         rw [hF, hS]
         exact sp1.trans sp2
     · cases h
   · cases h
     exact ⟨{ status := setSt t.status blk.1 (.finalized blk.2), parents := t.parents,
-             highest := max blk.1 t.highest, first := t.first }, ⟨rfl, low1, sp1⟩, rfl⟩
+             highest := max blk.1 t.highest, first := t.first },
+           ⟨rfl, Or.inr ⟨blk, by simp [evF], rfl⟩, low1, sp1⟩, rfl⟩
 
 theorem markFastFinalized_mid {t : Tracker} {blk : Nat × Nat} {t' : Tracker} {ev : Event}
     (h : markFastFinalized t blk = .ok t' ev) : ∃ m, MidEv t m ev ∧ ((t' = m ∧ ev = {}) ∨ t' = prune m) := by
@@ -387,7 +389,7 @@ theorem addParent_mid {t : Tracker} {blk par : Nat × Nat} {t' : Tracker} {ev : 
     · cases h; exact ⟨_, MidEv.same t, Or.inl ⟨rfl, rfl⟩⟩
     · cases h
   have hsame : MidEv t { t with parents := setPar t.parents blk par } {} :=
-    ⟨rfl, fun _ _ => rfl, EvSpec.refl _⟩
+    ⟨rfl, Or.inl rfl, fun _ _ => rfl, EvSpec.refl _⟩
   have hfin : ∀ hh : Nat,
       (if blk.2 = hh then
         match walk blk.1 { t with parents := setPar t.parents blk par } blk.1 par {} with
@@ -403,7 +405,7 @@ theorem addParent_mid {t : Tracker} {blk par : Nat × Nat} {t' : Tracker} {ev : 
         have w := walk_spec hw2
         obtain ⟨F, S, e1, e2, sp2⟩ := walk_evspec hw2
         have e3 := walk_finalized hw2
-        refine ⟨t2, ⟨w.first, ?_, ?_⟩, Or.inr rfl⟩
+        refine ⟨t2, ⟨w.first, Or.inl w.highest, ?_, ?_⟩, Or.inr rfl⟩
         · intro x hx
           rcases w.evolves x with e | ⟨l, _, _, _⟩
           · exact e
